@@ -1,5 +1,9 @@
 (* C06 — each command goes on the wire exactly once, whole, and before any waiting. *)
 From TI Require Import Bytes Grammar Nom Interp Natives Builders Client ClientProofs.
+From TI Require Import TagsProofs.
+From TI.gen Require Import ClientTables.
+From Coq Require Import String List.
+Import ListNotations.
 
 (* over a whole session (any commands, any number of polls per stream, any abandonment point, any
    write / flush / read schedule): bytes accepted by the transport ++ bytes still buffered
@@ -47,3 +51,14 @@ Check c06_one_poll : forall fuel c s c' s' o, rs_poll fuel c s = (c', s', o) ->
   (o = PNone -> s_state s = RsDone) /\
   (s_state s = RsDone -> (0 < fuel)%nat -> o = PNone /\ c' = c /\ s' = s).
 Print Assumptions c06_one_poll.
+
+(* reflection over the regenerated source text: the entry point the checks drive (the hook call_generic over
+   from_transport) is TlsClient::call over TlsClient::connect token for token, TLS transport aside *)
+Theorem c06_hook_is_call_verbatim :
+  gen_call_body = gen_call_generic_body /\ gen_connect_client = gen_hook_client /\
+  gen_call_body <> "<missing>"%string /\ gen_connect_client <> [].
+Proof. exact hook_is_call_verbatim_lemma. Qed.
+Check c06_hook_is_call_verbatim :
+  gen_call_body = gen_call_generic_body /\ gen_connect_client = gen_hook_client /\
+  gen_call_body <> "<missing>"%string /\ gen_connect_client <> [].
+Print Assumptions c06_hook_is_call_verbatim.
